@@ -105,9 +105,9 @@ def _finding_open(key, env):
 
 # N1: functors.RemoveRulesProvenToBeNil raises "proven to be empty" only for names without
 # '_': a user predicate `My_Rec(x) :- My_Rec(x)` read under a negation / next to another
-# rule is silently replaced by `nil` and SQL is produced.  While open: K6 with underscore
-# names is compiled only through targets that still get a diagnostic.
-N1_BUCKET = 'accepted_invalid:K6:underscore_observed'
+# rule is silently replaced by `nil` and SQL is produced.  While open: no underscore names
+# for a component compiled through such a reader.
+N1_BUCKET = 'accepted_invalid:K6:underscore_named_component_observed'
 EXCLUDE_N1 = _finding_open(N1_BUCKET, 'VERIF_C19_EXCLUDE_N1')
 # N2: an equality whose two sides are variables nothing binds (`y == z`, `y == z + 1`) is
 # dropped by ElliminateInternalVariables without a diagnostic.
@@ -765,13 +765,21 @@ def choose_K6(rng, prog):
          'underscore': rng.random() < 0.4}
     ob = prog.get('observer')
     if ob and ob[0] in comp and rng.random() < 0.7:
-        if p['underscore'] and ob[1] != 'only_rule' and EXCLUDE_N1:
-            p['excluded'] = 'N1_underscore_member_read_by_live_observer'
-        else:
-            p['target'], p['tkind'] = 'Ob', 'caller'
+        p['target'], p['tkind'] = 'Ob', 'caller'
+    if n1_class(prog, p) and EXCLUDE_N1:
+        p['underscore'] = False
+        p['excluded'] = 'N1_underscore_named_component_read_by_live_observer'
     if p['underscore'] and p['tkind'] == 'self':
         p['target'] = underscore_name(p['target'])
     return p
+
+
+def n1_class(prog, p):
+    """Known finding N1: members named with '_' are never reported as proven empty; an
+    outside predicate reading one under a negation / next to another rule compiles."""
+    ob = prog.get('observer')
+    return bool(p.get('underscore') and ob and ob[0] in p['component'] and
+                ob[1] != 'only_rule' and p['tkind'] == 'caller')
 
 
 def apply_K6(prog, p):
@@ -787,7 +795,8 @@ def apply_K6(prog, p):
     assert not any(r['pred'] in comp and not (common.deps_of_rule(r) & comp) for r in keep)
     m = k6_mapping(p)
     return p2, {'rule': None, 'vars': [], 'preds': sorted(m.get(n, n) for n in comp),
-                'n_deleted': len(prog['rules']) - len(keep), 'rename': m}
+                'n_deleted': len(prog['rules']) - len(keep), 'rename': m,
+                'component': sorted(comp)}
 
 
 def choose_K7(rng, prog):
@@ -1004,6 +1013,13 @@ def identify(e, lines, bad, hint, prog, target=None, tkind='self'):
     for p in names + list(hint.get('functor', ())):
         if word_in(p, msg) or (hasattr(e, 'functor_name') and word_in(p, ctx)):
             found.add('predicate')
+    ob = prog.get('observer')
+    if hint.get('n_deleted') and ob and ob[1] == 'only_rule' and \
+            ob[0] in hint.get('component', ()) and isinstance(e, drive.DIAGNOSTICS[2]) and \
+            word_in('Ob', msg):
+        # the only rule of the observer reads the emptied component: it is itself one of
+        # the predicates "proven to be empty", the compiler names an arbitrary one of them
+        found.add('dependent_empty_predicate')
     stmts = []
     if bad is not None:
         stmts.append(lines[bad][1])
@@ -1057,6 +1073,14 @@ def show_message(e):
 
 
 def judge(prog, op, params, kind_target=None):
+    res = judge0(prog, op, params, kind_target)
+    if op == 'K6' and res['status'] == 'fail' and n1_class(prog, params) and \
+            res['bucket'].startswith('accepted_invalid:'):
+        res['bucket'] = N1_BUCKET
+    return res
+
+
+def judge0(prog, op, params, kind_target=None):
     """Apply the corruption and compile.  -> dict(status ok|fail, bucket, detail, labels,
     text, target)"""
     lines, bad, hint = corrupt(prog, op, params)
@@ -1127,8 +1151,6 @@ def judge(prog, op, params, kind_target=None):
                    detail='%s\n%s' % (traceback.format_exc()[-1500:], head))
         return res
     sub = ':' + params['mode'] if params.get('mode') else ''
-    if op == 'K6' and params.get('underscore') and tkind == 'caller':
-        sub = ':underscore_observed'
     res.update(status='fail', bucket='accepted_invalid:%s%s' % (op, sub),
         detail='SQL was produced for an invalid program (%d chars)\n%s\n--- SQL\n%s' % (
             len(sql), head, sql[:1500]))
